@@ -19,18 +19,18 @@ inductive ParseErr
   | internal (exc : String)
 deriving DecidableEq, Repr
 
-inductive Entry
+inductive SEntry
   | ctx (c : Char) (idx : Nat)       -- an opening bracket token
   | op (o : OpSpec) (idx : Nat)
 deriving Repr, Inhabited
 
-def Entry.idx : Entry → Nat
+def SEntry.idx : SEntry → Nat
   | .ctx _ i => i
   | .op _ i => i
 
 structure ShState where
   out : List Ast := []
-  stack : List Entry := []      -- top of stack first
+  stack : List SEntry := []      -- top of stack first
 deriving Repr, Inhabited
 
 /-! ### resolve -/
@@ -78,7 +78,7 @@ def operate (o : OpSpec) (idx : Nat) (out : List Ast) : Except ParseErr (List As
   else .ok (out.take lo ++ [Ast.node o ((out.drop lo).take (hi - lo))] ++ out.drop hi)
 
 /-- `Operator.accepts_context([s.operator for s in operator_stack])` -/
-def acceptsContext (o : OpSpec) (stack : List Entry) : Bool :=
+def acceptsContext (o : OpSpec) (stack : List SEntry) : Bool :=
   -- bottom → top, keeping tokens and operators with precedence ≤ ours
   let ctx := stack.reverse.filter (fun e => match e with
     | .ctx _ _ => true
@@ -100,7 +100,7 @@ def popCond (top c : OpSpec) : Bool :=
   top.prec > c.prec || (top.prec == c.prec && c.assoc == .left)
 
 /-- the `while operator_stack and … precedence …: operate(pop)` loop for an incoming candidate -/
-def popWhile (c : OpSpec) : List Ast → List Entry → Except ParseErr ShState
+def popWhile (c : OpSpec) : List Ast → List SEntry → Except ParseErr ShState
   | out, [] => .ok ⟨out, []⟩
   | out, .ctx ch i :: stk => .ok ⟨out, .ctx ch i :: stk⟩
   | out, .op o i :: stk =>
@@ -131,7 +131,7 @@ def tryCands : List OpSpec → ShState → Except ParseErr ShState
         else tryCands cs s'
 
 /-- closing bracket: reduce until the matching opener; a mismatched opener is a syntax error -/
-def closeCtx (opener : Char) : List Ast → List Entry → Except ParseErr ShState
+def closeCtx (opener : Char) : List Ast → List SEntry → Except ParseErr ShState
   | _, [] => .error (.syntax "no matching context marker")
   | out, .ctx c _ :: stk => if c == opener then .ok ⟨out, stk⟩ else .error (.syntax "no matching context marker")
   | out, .op o i :: stk =>
@@ -167,7 +167,7 @@ def shuntRun (tab : OpTable) : List Tok → ShState → Except ParseErr ShState
     | .error e => .error e
     | .ok s' => shuntRun tab ts s'
 
-def finish : List Ast → List Entry → Except ParseErr (List Ast)
+def finish : List Ast → List SEntry → Except ParseErr (List Ast)
   | out, [] => .ok out
   | _, .ctx _ _ :: _ => .error (.syntax "no matching context marker")
   | out, .op o i :: stk =>
